@@ -86,6 +86,9 @@ func docDefault(r *Rng) DocCfg { return DefaultDocCfg() }
 // GenProperty writes the cases of one property's correspondence run.
 func GenProperty(w *Writer, prop string, t Tier, seed uint64) error {
 	r := NewRng(seed ^ hashStr(prop))
+	if err := GenCorpus(w, prop); err != nil {
+		return err
+	}
 	switch prop {
 	case "C01":
 		if t.Thorough {
